@@ -54,10 +54,10 @@ def npmEntry (content : Text) (child : Node) : Option PkgInfo :=
       if v.kind != "string" then none
       else if !closedString (nodeText content v) then none
       else
-        let raw := unquoteDq (nodeText content v)
+        let raw := jsonStr (nodeText content v)
         if nonRegistry raw then none
         else
-          let nv := npmNameVersion (unquoteDq (nodeText content k)) raw
+          let nv := npmNameVersion (jsonStr (nodeText content k)) raw
           some ⟨nv.1, nv.2, none, v.sb + 1, v.eb - 1, v.info.sr, v.info.sc + 1, none⟩
     | _, _ => none
 
@@ -72,7 +72,7 @@ def npmSectionOf (content : Text) (child : Node) : Option Node :=
     match child.childByField "key" with
     | none => none
     | some k =>
-      if !strIn Generated.dependencyFields (unquoteDq (nodeText content k)) then none
+      if !strIn Generated.dependencyFields (jsonStr (nodeText content k)) then none
       else
         match child.childByField "value" with
         | some v => if v.kind == "object" then some v else none
@@ -98,7 +98,7 @@ def denoEntry (content : Text) (child : Node) : Option PkgInfo :=
       if v.kind != "string" then none
       else if !closedString (nodeText content v) then none
       else
-        match Sites.jsrSpecifier (unquoteDq (nodeText content v)) with
+        match Sites.jsrSpecifier (jsonStr (nodeText content v)) with
         | some (some (n, ver)) => some ⟨n, ver, none, v.sb + 1, v.eb - 1, v.info.sr, v.info.sc + 1, none⟩
         | _ => none
 
@@ -113,7 +113,7 @@ def denoSectionOf (content : Text) (child : Node) : Option Node :=
     match child.childByField "key" with
     | none => none
     | some k =>
-      if unquoteDq (nodeText content k) != importsKey then none
+      if jsonStr (nodeText content k) != importsKey then none
       else
         match child.childByField "value" with
         | some v => if v.kind == "object" then some v else none
